@@ -264,7 +264,12 @@ func finish(rep *vevid.Report, sc scenario, x *vsched.Result) {
 	if err := wd.md.FlushFamilyTo(rec); err != nil {
 		viol("operation-failed", "memdb.FlushFamilyTo", err.Error())
 	}
-	all := append(append([]op{}, sc.Pre...), wd.written...)
+	var all []op
+	for _, o := range append(append([]op{}, sc.Pre...), wd.written...) {
+		if o.Kind == "write" {
+			all = append(all, o)
+		}
+	}
 	// fields written per series
 	want := map[[2]string]map[string]bool{}
 	for _, o := range all {
@@ -330,7 +335,15 @@ func finish(rep *vevid.Report, sc scenario, x *vsched.Result) {
 		}
 	}
 	if crashOracle {
-		sig = append(sig, seriesOracle(viol, all)...)
+		var before map[string]uint32
+		if completedCycle(sc) && len(wd.errs) == 0 {
+			// the ids the running node uses (the names exist: nothing is created here)
+			var err error
+			if before, err = nameIDs(wd.meta, all); err != nil {
+				viol("name-lookup-failed", "index.MetricMetaDatabase", err.Error())
+			}
+		}
+		sig = append(sig, seriesOracle(viol, all, before)...)
 	}
 	sort.Strings(sig)
 	rep.Outcome(fmt.Sprintf("%s written=%d flushed-series=%d %s", sc.Name, len(wd.written), len(rec.out), strings.Join(sig, ",")))
@@ -346,6 +359,36 @@ var c09Scenarios = []scenario{
 	{Name: "two-new-series-vs-index-flush", Pre: []op{w("m0", "a", "f")}, Threads: [][]op{{w("m0", "b", "f"), w("m0", "c", "f")}, {fi}}},
 	{Name: "new-series-vs-both-flushes", Pre: []op{w("m0", "a", "f")}, Threads: [][]op{{w("m0", "b", "f")}, {fm, fi}}},
 	{Name: "new-metric-vs-both-flushes", Pre: []op{w("m0", "a", "f")}, Threads: [][]op{{w("m1", "a", "f")}, {fm, fi}}},
+	// a complete flush cycle (metadata, then index) after the last write, one thread: what the cycle wrote is durable -
+	// the names of a cycle that only brought new series (tag values) of a known metric as well
+	{Name: "completed-cycle-new-series", Pre: []op{w("m0", "a", "f"), fm, fi}, Threads: [][]op{{w("m0", "b", "f"), fm, fi}}},
+	{Name: "completed-cycle-new-metric", Pre: []op{w("m0", "a", "f"), fm, fi}, Threads: [][]op{{w("m1", "a", "f"), fm, fi}}},
+}
+
+// completedCycle: the scenario ends with a whole flush cycle after its last write (one thread, program order)
+func completedCycle(sc scenario) bool { return strings.HasPrefix(sc.Name, "completed-cycle") }
+
+// nameIDs reads (creating nothing new when the names exist) the ids of every written name from a metadata database
+func nameIDs(meta index.MetricMetaDatabase, all []op) (map[string]uint32, error) {
+	out := map[string]uint32{}
+	for _, o := range all {
+		mid, err := meta.GenMetricID([]byte("ns"), []byte(o.Metric))
+		if err != nil {
+			return nil, err
+		}
+		out["metric "+o.Metric] = uint32(mid)
+		kid, err := meta.GenTagKeyID(mid, []byte("host"))
+		if err != nil {
+			return nil, err
+		}
+		out["tagkey "+o.Metric+".host"] = uint32(kid)
+		vid, err := meta.GenTagValueID(kid, []byte(o.Host))
+		if err != nil {
+			return nil, err
+		}
+		out["tagvalue "+o.Metric+".host="+o.Host] = vid
+	}
+	return out, nil
 }
 
 func seriesRow(m, host string) *metric.StorageRow {
@@ -359,7 +402,7 @@ func seriesRow(m, host string) *metric.StorageRow {
 // seriesOracle: the directory as it is now (what the flush events made durable; everything in memory is lost) is
 // recovered by fresh index databases: for every metric found there, two new series and every series written before
 // get series ids - different tag sets never share one.
-func seriesOracle(viol func(clause, site, detail string), all []op) []string {
+func seriesOracle(viol func(clause, site, detail string), all []op, durable map[string]uint32) []string {
 	var sig []string
 	img := vcrashfs.Snap(wd.dir, func(rel string) bool { return strings.HasSuffix(rel, "LOCK") || strings.HasPrefix(rel, "buf") })
 	croot := filepath.Join(scratch, "crash")
@@ -380,6 +423,40 @@ func seriesOracle(viol func(clause, site, detail string), all []op) []string {
 		return sig
 	}
 	defer idx.Close()
+	if durable != nil {
+		// a whole flush cycle completed after the last write: every name has the id it had before the crash
+		// (a brand-new tag value is created first on every tag key: a name that got lost would otherwise simply be
+		// handed its old id again by the recovered sequence)
+		for _, o := range all {
+			if mid, err := meta.GetMetricID("ns", o.Metric); err == nil {
+				if kid, err := meta.GenTagKeyID(mid, []byte("host")); err == nil {
+					if vid, err := meta.GenTagValueID(kid, []byte("zz-new")); err == nil {
+						for n, id := range durable {
+							if strings.HasPrefix(n, "tagvalue "+o.Metric+".host=") && id == vid {
+								viol("durable-after-completed-cycle", "memdb.MetadataDatabase flush event", fmt.Sprintf("a complete flush cycle ran after the last write; after a crash a new tag value of %s.host gets id %d, the id %s had before the crash (the recovered index refers to it)", o.Metric, vid, n))
+								sig = append(sig, "id-reused")
+							}
+						}
+					}
+				}
+			}
+		}
+		after, err := nameIDs(meta, all)
+		if err != nil {
+			viol("name-lookup-failed", "index.MetricMetaDatabase (recovered)", err.Error())
+		}
+		var names []string
+		for n := range durable {
+			names = append(names, n)
+		}
+		sort.Strings(names)
+		for _, n := range names {
+			if after != nil && after[n] != durable[n] {
+				viol("durable-after-completed-cycle", "memdb.MetadataDatabase flush event", fmt.Sprintf("a complete flush cycle (metadata, then index) ran after the last write; after a crash %s has id %d, before the crash it had id %d", n, after[n], durable[n]))
+				sig = append(sig, "name-not-durable")
+			}
+		}
+	}
 	hostsOf := map[string][]string{}
 	for _, o := range all {
 		dup := false
